@@ -4,7 +4,7 @@ import vcommon
 from checks import pcommon
 
 LEVEL = "exploration"
-PROPS = ["C05"]
+PROPS = ["C05", "C11"]
 
 
 def run(chk, tier, scale=1.0):
